@@ -156,6 +156,21 @@ def check_fresh_defaults(ctx):
                 return None
             sp = Spec(an, fn, decide)
 
+            def is_deep_copier(call):
+                nn = g.nodes_for(call)
+                tgs = an.targets(fn, nn[0]) if nn else []
+                if ast.unparse(call.func).split(".")[-1] == "deepcopy":
+                    return True
+                for t in tgs:
+                    f2 = getattr(t, "fn", None)
+                    if t.kind != "fn" or f2 is None or isinstance(f2.node, ast.Lambda):
+                        return False
+                    recursive = any(isinstance(x, ast.Call) and isinstance(x.func, ast.Name) and x.func.id == f2.name for x in ast.walk(f2.node))
+                    kinds_ = {c_ for x in ast.walk(f2.node) if isinstance(x, ast.Call) and isinstance(x.func, ast.Name) and x.func.id == "isinstance" and len(x.args) == 2
+                              for c_ in (an.ft(f2).class_spec(x.args[1], {}) or [])}
+                    if not (recursive and {"list", "dict"} <= kinds_):
+                        return False
+                return bool(tgs)
             def fresh_leaf(v):
                 if isinstance(v, ast.Subscript) and isinstance(v.slice, ast.Slice) and v.slice.lower is None and v.slice.upper is None:
                     return True         # x[:]
@@ -164,6 +179,8 @@ def check_fresh_defaults(ctx):
                 if isinstance(v, ast.Constant):
                     return True
                 if isinstance(v, ast.Call):
+                    if is_deep_copier(v):
+                        return True     # given a list / dict, a deep copier returns a newly built one
                     tg = an.targets(fn, g.nodes_for(v)[0]) if g.nodes_for(v) else []
                     return bool(tg) and all(an.returns_fresh(t) for t in tg)
                 return False
@@ -178,6 +195,46 @@ def check_fresh_defaults(ctx):
                         ok, why = False, ("the declared default object itself (%s) can be stored in the configuration: every configuration of the "
                                           "schema then shares one mutable %s" % (ast.unparse(leaf)[:40] if isinstance(leaf, ast.AST) else k, want))
             ctx.ob("default.fresh", fn, n.ast, ok, why, node=n)
+            # ... and the copy is deep: lists and dicts *inside* the declared default are per-configuration too.  Followed
+            # from the stored value back to self.default: a proxy constructor, list(), dict(), a slice, a display or a
+            # comprehension copies one level only; the data has to pass a deep copy (copy.deepcopy, or a function that
+            # rebuilds lists and dicts by calling itself on their members) on the way
+            shallow = None
+            if n in sp.normal and ok:
+                todo, seen_ = [(arg, n)], set()
+                while todo and shallow is None:
+                    e_, at_ = todo.pop()
+                    for k, leaf in sp.sources(e_, at_):
+                        if id(leaf) in seen_:
+                            continue
+                        seen_.add(id(leaf))
+                        where_ = sp.where.get(id(leaf)) or at_
+                        if k != "expr" or isinstance(leaf, ast.Constant):
+                            continue
+                        if is_declared(leaf, where_):
+                            shallow = leaf
+                        elif isinstance(leaf, ast.Call) and is_deep_copier(leaf):
+                            continue
+                        elif isinstance(leaf, ast.Call):
+                            # the data argument of a copying call: the last positional one (ListProxy(cfg, self, data), list(data))
+                            data = [a_ for a_ in leaf.args if not isinstance(a_, ast.Starred)]
+                            if isinstance(leaf.func, ast.Attribute) and leaf.func.attr == "copy" and not leaf.args:
+                                data = [leaf.func.value]
+                            todo += [(a_, where_) for a_ in data[-1:]]
+                        elif isinstance(leaf, ast.Subscript):
+                            todo.append((leaf.value, where_))
+                        elif isinstance(leaf, (ast.List, ast.Tuple, ast.Set)):
+                            todo += [(x.value if isinstance(x, ast.Starred) else x, where_) for x in leaf.elts]
+                        elif isinstance(leaf, ast.Dict):
+                            todo += [(v_, where_) for k_, v_ in zip(leaf.keys, leaf.values) if k_ is None]
+                        elif isinstance(leaf, (ast.ListComp, ast.DictComp, ast.SetComp)):
+                            todo.append((leaf.generators[0].iter, where_))
+                        elif isinstance(leaf, ast.Name):
+                            todo.append((leaf, where_))
+            ctx.ob("default.deep-fresh", fn, n.ast, shallow is None,
+                   "nested lists and dicts of the declared default are copied as well" if shallow is None else
+                   "the declared default is copied one level deep only: a list or dict nested inside it is shared by every configuration of the "
+                   "schema and with the field's declared default (c1.items[0]['k'] = 1 shows in c2 and in field.default)", node=n)
     ctx.need(nsites >= 5, "fewer than 5 default stores found")
     # default stores outside the fields' own __setdefault__ (helpers such as reset_value): the declared default must not be
     # handed over as it is -- the per-configuration copy / proxy is made by __setdefault__ only
